@@ -133,22 +133,71 @@ package leader_worker_set
 //@   ensures [segmentOfIndex] result1 == nil ==> result0 == segIndex(tuple0(strconv.Atoi(pod.Labels[lwsWorkerIndexLabel])), replicasSize, segmentSize)
 //@ end
 
-// NOT VERIFIED (see report): the segmented sub-group construction. It goes through slices.Insert (generic library code,
-// no model) and createSegmentSubgroups/fixLastSegmentSize; only its frame is assumed here so that the caller can be
-// verified. CANDIDATE FINDING (C10, by reading): subGroups[podSegment] is indexed with a segment computed from the pod's
-// worker-index LABEL without a range check - a pod whose label exceeds the (possibly reduced) group size panics.
-//@ func buildSubGroupsWithSegmentation
-//@   props C18
-//@   trusted
-//@   note outside the subset: slices.Insert (generic library) has no model; frame-only assumption, no functional claim
-//@   ensures result1 != nil ==> result0 == nil
+// ---- the segmented sub-group construction ----
+// slices.Insert (generic library, ASSUMED): a new slice with v inserted at position i
+//@ func slices.Insert
+//@   fresh
+//@   requires 0 <= i && i <= len(s)
+//@   ensures [assumed] len(result) == len(s) + len(v)
+//@   ensures [assumed] forall j int :: 0 <= j && j < len(result) ==> result[j] == ite(j < i, s[j], ite(j < i + len(v), v[j - i], s[j - len(v)]))
+//@   note assumed library model of slices.Insert
 //@ end
+
+//@ define allSG(s []*podgroup.SubGroupMetadata) bool = forall j int :: 0 <= j && j < len(s) ==> s[j] != nil && allocated(s[j])
+//@ func createSegmentSubgroups
+//@   props C18 C10
+//@   requires segmentSize >= 2 && replicasSize >= segmentSize
+//@   loop 1
+//@     invariant segmentIndex >= 0 && len(subGroups) == segmentIndex && segmentIndex <= numOfSegmentSubgroups && numOfSegmentSubgroups >= 1
+//@     invariant forall j int :: 0 <= j && j < len(subGroups) ==> subGroups[j] != nil && fresh(subGroups[j])
+//@   ensures [atLeastOneSegment] len(result) >= 1
+//@   ensures [freshSegments] forall j int :: 0 <= j && j < len(result) ==> result[j] != nil && fresh(result[j])
+//@ end
+//@ func fixLastSegmentSize
+//@   props C18 C10
+//@   requires segmentSize != 0 && len(subGroups) >= 1 && subGroups[len(subGroups) - 1] != nil
+//@   modifies subGroups[len(subGroups) - 1].MinAvailable
+//@   loop 1
+//@     invariant true
+//@ end
+//@ func addLeaderAndWorkersSubgroupsForSegment
+//@   props C18 C10
+//@   requires pod != nil
+//@   ensures [two] len(result0) == 2 && result0[0] != nil && result0[1] != nil && fresh(result0[0]) && fresh(result0[1])
+//@ end
+// (handleLeaderInFirstSegment: executed inline by its only caller; a standalone unit for it did not finish in 250 s)
+//@ func handleLeaderInFirstSegment
+//@   inline
+//@ end
+//@ func addExcludedLeaderSegments
+//@   props C18 C10
+//@   requires segmentSize != 0 && (forall j int :: 0 <= j && j < len(subGroups) ==> subGroups[j] != nil)
+//@   ensures [errIffNotDivisible] (result1 != nil) == !divisible(replicasSize, segmentSize)
+//@   ensures [errorNil] result1 != nil ==> result0 == nil
+//@   ensures [oneMore] result1 == nil ==> len(result0) == len(subGroups) + 1 && result0[0] != nil && fresh(result0[0])
+//@   ensures [nonNil] result1 == nil ==> (forall j int :: 0 <= j && j < len(result0) ==> result0[j] != nil)
+//@   ensures [segmentsShifted] result1 == nil ==> (forall j int :: 0 <= j && j < len(subGroups) ==> result0[j + 1] == subGroups[j])
+//@ end
+
+// C10 (FINDING, fixed in /repo 1a2d1e4): the pod's segment comes from its worker-index LABEL; it used to index the
+// sub-group slice unchecked ("9" in a group of 4 => index out of range panic). The no-panic obligations of this unit are
+// the check: they fail again if the range test is removed. C18: only freshly built sub-groups are written.
+//@ func buildSubGroupsWithSegmentation
+//@   props C18 C10
+//@   requires pod != nil && segmentationPolicy != nil && segmentationPolicy.SubGroupSize != nil && segmentationPolicy.Type != nil
+//@   requires *segmentationPolicy.SubGroupSize >= 2 && *segmentationPolicy.SubGroupSize <= replicasSize
+//@   modifies *
+//@   note modifies *: the writes go to the sub-group objects built by this very call (MinAvailable of the first/last segment, member lists); the frame clause has no handle for "fields of the objects of a local slice"
+//@   ensures [errorNil] result1 != nil ==> result0 == nil
+//@   ensures [badIndexIsError] old(tuple1(strconv.Atoi(pod.Labels[lwsWorkerIndexLabel])) != nil) ==> result1 != nil
+//@ end
+
 //@ func getSegmentationPolicy
-//@   props C18
-//@   trusted
-//@   note builds a sigs.k8s.io/lws SubGroupPolicy through ptr.To (generic library); frame-only assumption plus: no policy iff no segment size (getSegmentSize, verified)
+//@   props C18 C10
 //@   requires lwsJob != nil
-//@   ensures result1 != nil ==> result0 == nil
+//@   ensures [errorNil] result1 != nil ==> result0 == nil
+//@   ensures [noneIffNoSegmentSize] result1 == nil ==> (result0 == nil) == !segDefined(lwsJob)
+//@   ensures [policyWellFormed] result0 != nil ==> result0.SubGroupSize != nil && result0.Type != nil && *result0.SubGroupSize == segValue(lwsJob) && 2 <= *result0.SubGroupSize && *result0.SubGroupSize <= replicasSize
 //@ end
 
 //@ func (*LwsGrouper).buildSubGroups
